@@ -401,6 +401,96 @@ OPS.update({
 })
 
 
+class FakeTime:
+    """Stands in for the `time` module as seen by timezone.py."""
+
+    def __init__(self, tz, alt, daylight, isdst):
+        self.timezone, self.altzone, self.daylight = tz, alt, daylight
+        self._isdst = isdst
+
+    def localtime(self, *a):
+        import time as real
+        t = list(real.localtime(*a))
+        t[8] = self._isdst
+        return real.struct_time(t)
+
+    def __getattr__(self, name):
+        import time as real
+        return getattr(real, name)
+
+
+def with_fake_time(tz, alt, dl, dst, fn):
+    from metomi.isodatetime import timezone as tzmod
+    saved = tzmod.time
+    tzmod.time = FakeTime(tz, alt, dl, dst)
+    try:
+        return fn()
+    finally:
+        tzmod.time = saved
+
+
+def op_localtz(t):
+    from metomi.isodatetime import timezone as tzmod
+    tz, alt, dl, dst = t.z(), t.z(), t.z(), t.z()
+    h, m = with_fake_time(tz, alt, dl, dst, tzmod.get_local_time_zone)
+    return "%d %d" % (h, m)
+
+
+def op_localfmt(t):
+    from metomi.isodatetime import timezone as tzmod
+    mode = t.next()
+    tz, alt, dl, dst = t.z(), t.z(), t.z(), t.z()
+    return with_fake_time(tz, alt, dl, dst,
+                          lambda: tzmod.get_local_time_zone_format(mode))
+
+
+def op_fromunix(t):
+    _md(t)
+    n = t.q()
+    k = t.next()
+    arg = int(n) if n.denominator == 1 else float(n)
+    if k == "utc":
+        return sh_tp(data.get_timepoint_from_seconds_since_unix_epoch(arg, utc=True))
+    h, m = t.z(), t.z()
+    secs = -(h * 3600 + m * 60)
+    return sh_tp(with_fake_time(
+        secs, secs, 0, 0,
+        lambda: data.get_timepoint_from_seconds_since_unix_epoch(arg)))
+
+
+def op_tounix(t):
+    _md(t)
+    return rd_tp(t).seconds_since_unix_epoch
+
+
+OPS.update({"localtz": op_localtz, "localfmt": op_localfmt,
+            "fromunix": op_fromunix, "tounix": op_tounix})
+
+
+def op_localtz_os(t):
+    """The OS path: a POSIX TZ string through time.tzset()."""
+    import os
+    import time as real
+    from metomi.isodatetime import timezone as tzmod
+    tzs = t.next()
+    old = os.environ.get("TZ")
+    os.environ["TZ"] = tzs
+    real.tzset()
+    try:
+        h, m = tzmod.get_local_time_zone()
+        return "%d %d %d %d %d %d" % (h, m, real.timezone, real.altzone,
+                                      real.daylight, real.localtime().tm_isdst)
+    finally:
+        if old is None:
+            del os.environ["TZ"]
+        else:
+            os.environ["TZ"] = old
+        real.tzset()
+
+
+OPS["localtz_os"] = op_localtz_os
+
+
 def eval_line(line, timeout=10):
     toks = line.split()
     if not toks:
